@@ -284,6 +284,11 @@ def axis_classes(r):
         out.append(((-2, -1), "tuple_neg"))
     if r == 1:
         out.append(((0,), "tuple"))
+    if r >= 1:
+        out.append((onp.int64(r - 1), "npint"))
+        out.append((onp.int32(-1), "npint_neg"))
+        out.append(((), "tuple_empty"))
+        out.append(([0], "list"))
     return out
 
 
@@ -300,8 +305,10 @@ def gen_reductions(rng, cx=False):
                 if ones and r not in (2, 3):
                     continue
                 for (ax, cls) in axis_classes(r):
-                    for kd in ("__default__", True, False):
+                    for kd in ("__default__", True, False, onp.True_):
                         if kd is False and cls not in ("default", "neg"):
+                            continue
+                        if kd is onp.True_ and cls not in ("default", "zero", "tuple"):
                             continue
                         kw = {}
                         if ax != "__default__":
